@@ -26,7 +26,8 @@ def _urlparse_stub(I, run, args, kwargs, node):
     port = Sym("p.port", "int")
     run.assume_range(port, 0, 65535)
     return new_obj(run, None, "parsed", hostname=Sym("p.hostname", "str"), port=port, path=Sym("p.path", "str"),
-                   query=Sym("p.query", "str"))
+                   query=Sym("p.query", "str"), netloc=Sym("p.netloc", "str"), scheme=Sym("p.scheme", "str"),
+                   username=Sym("p.username", "str"), password=Sym("p.password", "str"), params=C(""), fragment=Sym("p.fragment", "str"))
 
 
 def _tr(run, I, v):
